@@ -377,3 +377,5 @@ def run(report, repo):
   report.guard(c10.r5_phase_state, report, repo, rule='C18-R5')
   from sa.rules import extra4  # pylint: disable=g-import-not-at-top
   report.guard(extra4.snapshot_is_pure, report, repo, 'C18-R6')
+  from sa.rules import extra5 as _e5d  # pylint: disable=g-import-not-at-top
+  report.guard(_e5d.prompt_writes_notify, report, repo, 'C18-R8')
